@@ -35,7 +35,7 @@ func init() {
 	log.Root().SetHandler(log.DiscardHandler())
 	kernel.Register(&kernel.Rig{
 		Property: "C06", Name: "R-chain/ledger", Level: "exploration",
-		Rule:        "one run = one seeded transaction mix (swarm weights over plain/token transfers incl. over-balance ones, EVM creations and calls that succeed/revert/hit INVALID/run out of gas at a swept limit, token issue, self-destruct to self/others, value sent after self-destruct, forwarding contracts, multi-signature and upgrade transactions, account->hidden, hidden->hidden with rings from the output index, hidden->account) plus, in 3 of 4 runs, directed transactions appended to every block (contracts holding coin and issued tokens reached by SELFDESTRUCT several times per block and, through a contract that CALLs its target k times, several times per transaction, towards itself / fresh / account / contract / dead contract beneficiaries, also carrying a token as call value; the same inside frames that REVERT or hit INVALID after the inner calls succeeded, at depth 1-2; a contract paying coin and tokens out with TRANSFERTOKEN, covered or not, reverted or repeated; ISSUE repeated and reverted; token-carrying calls that fail; coin and tokens sent to the address of a contract created later in the block; all-or-nothing value-carrying call trees with the gas limit swept across the inner transfer fees; issued tokens entering and leaving the hidden pool) x 2-12 blocks built from an explicit list or through the mempool, committed on a trie-mode and a kv-mode replica; after every block: sum over ALL trie accounts + unspent hidden outputs == previous total + issued - self-destructed-to-self (per token), every known account == reference ledger on both replicas, fees debited == collector credit == gasUsed x price, failed receipts moved fees only; tampered confidential transactions (coin and issued tokens; altered after signing, and altered BEFORE signing so that every signature and proof verifies and only the balance between public amounts and commitments in whole units is broken: account output / fee of k units + r, raised outputs, raised or lowered fee, amounts wrapping 2^64 units) offered to the mempool and inside blocks. non-trivial = >= 2 blocks and >= 6 transactions committed with at least one failed receipt or one designed exception; distinct = hash of the per-block (state hash, receipt hash, totals)",
+		Rule:        "one run = one seeded transaction mix (swarm weights over plain/token transfers incl. over-balance ones, EVM creations and calls that succeed/revert/hit INVALID/run out of gas at a swept limit, token issue, self-destruct to self/others, value sent after self-destruct, forwarding contracts, multi-signature and upgrade transactions, account->hidden, hidden->hidden with rings from the output index, hidden->account) plus, in 3 of 4 runs, directed transactions appended to every block (contracts holding coin and issued tokens reached by SELFDESTRUCT several times per block and, through a contract that CALLs its target k times, several times per transaction, towards itself / fresh / account / contract / dead contract beneficiaries, also carrying a token as call value; the same inside frames that REVERT or hit INVALID after the inner calls succeeded, at depth 1-2; a contract paying coin and tokens out with TRANSFERTOKEN, covered or not, reverted or repeated; ISSUE repeated and reverted; token-carrying calls that fail; coin and tokens sent to the address of a contract created later in the block; all-or-nothing value-carrying call trees with the gas limit swept across the inner transfer fees; issued tokens entering and leaving the hidden pool) x 2-12 blocks built from an explicit list or through the mempool, committed on a trie-mode and a kv-mode replica; after every block: sum over ALL trie accounts + unspent hidden outputs == previous total + issued - self-destructed-to-self (per token), every known account == reference ledger on both replicas, fees debited == collector credit == gasUsed x price, failed receipts moved fees only; tampered confidential transactions (coin and issued tokens; altered after signing, and altered BEFORE signing so that every signature and proof verifies and only the balance between public amounts and commitments in whole units is broken: account output / fee of k units + r, raised outputs, raised or lowered fee, amounts wrapping 2^64 units; and with a hand-built RingCT stage whose per-output / per-input lists do not match the outputs and inputs while the commitment equation holds and all signatures are made afterwards: surplus output commitments to negative amounts, surplus pseudo-outs, outputs the range proof does not cover or without commitment; surplus/deficit encrypted amounts, additional keys, range-proof entries) offered to the mempool and inside blocks; an accepted one is also committed on a scratch replica opened from a disk snapshot to show its effect on the total supply. Wire-level assembled account transactions (plain, token, contract call, creation; one field set to an out-of-policy or boundary value the constructors normalise: gas price x2/+1/xN/2^64/2^200/-1/half/0/1, gas limit around intrinsic and around the fee rule/0/2^63/max, amount 0/2^255/2^256(+original), nonce gap/replay/max) offered the same way: no panic, and if CheckBlock accepts, committing on a scratch replica leaves the supply of every token unchanged. non-trivial = >= 2 blocks and >= 6 transactions committed with at least one failed receipt or one designed exception; distinct = hash of the per-block (state hash, receipt hash, totals)",
 		Real:        []string{"app.LinkApplication (CreateBlock, PreRunBlock, CheckBlock, CommitBlock)", "app state processor / state transition", "state.StateDB in trie and kv mode", "vm/evm interpreter incl. token opcodes", "mempool (AddTx, Reap, Update)", "types transaction checks (CheckBasic/CheckState, UTXO commitment balance, ring signatures)", "blockchain.BlockStore", "utxo.UtxoStore", "txmgr", "consensus.BlockExecutor.ApplyBlock/validateBlock", "secp256k1"},
 		Stub:        []string{"consensus state machine (single-validator commit signed by the harness)", "storage engine (SimDB)", "libxcrypto (pure-Go model: group arithmetic real, range proof transparent)", "fee-distribution WASM contract not deployed (fees stay on the collector account)"},
 		Assumptions: []string{"the embedded EVM contracts behave as their 10-line models say when given ample gas (gas-tight calls follow the receipt)", "WASM contracts are exercised in C05 only (their effects are not modelled)", "hidden amounts are known to the generator because it created every output"},
@@ -70,6 +70,9 @@ type rigState struct {
 	except  int
 	now     uint64
 	sc      *scenario
+	diskT   *simdb.Disk          // the trie replica's disk (scratch replicas are opened from its snapshots)
+	specT   *simnode.GenesisSpec // and its genesis spec
+	scratch int
 	unit    *big.Int // commitment unit of the token the current tampered transaction moves
 }
 
@@ -127,6 +130,9 @@ func runIn(c *kernel.Ctx) {
 			c.HarnessTrouble("open %s: %v", name, err)
 			return nil
 		}
+		if isTrie {
+			rs.diskT, rs.specT = disk, spec
+		}
 		return r
 	}
 	rs.T, rs.K = open("trie", true), open("kv", false)
@@ -169,6 +175,9 @@ func runIn(c *kernel.Ctx) {
 		}
 		if txgen.UtxoReady() && wl.Bool(1, 2) {
 			rs.tamperRound()
+		}
+		if !c.Failed() && wl.Bool(1, 2) {
+			rs.wireRound()
 		}
 	}
 	if len(rs.smp.Blocks) >= 2 && rs.txCount >= 6 && (rs.failed > 0 || rs.except > 0) {
@@ -332,7 +341,11 @@ func describe(items []*txgen.Item) string {
 // enumerate walks the account trie of the trie-mode replica and returns the
 // per-token totals and the per-account view.
 func (rs *rigState) enumerate() (map[common.Address]*big.Int, map[common.Address]state.DumpAccount) {
-	st := rs.T.Chain.App.GetLatestStateDB()
+	return enumerateReplica(rs.T)
+}
+
+func enumerateReplica(r *txgen.Replica) (map[common.Address]*big.Int, map[common.Address]state.DumpAccount) {
+	st := r.Chain.App.GetLatestStateDB()
 	dump := st.RawDump()
 	tot := map[common.Address]*big.Int{txgen.Native: new(big.Int)}
 	accts := map[common.Address]state.DumpAccount{}
